@@ -298,3 +298,61 @@ def add_tagged(rep, prop, tier, seed):
             n += 1
             rep.violation(cls, replay)
     return {"generated_code_corpus": cov, "generated_findings_before_known_filter": n}
+
+
+def encode_traces(rep, prop, tier, seed):
+    """Call-log validation of EMITTED code: size() and encode() of generated types run on a TracedW around the real protocol
+    object; every call (bytes appended, length returned, compact private state through the hook) must be explained by
+    spec/ThriftTrace.tla.  Rejections at a w_* event belong to C02, at an l_* event to C04."""
+    import random
+    import thrift_rt as rt
+    cases, res, units, cst = results(tier, seed)
+    base = [(ci, cs) for ci, cs in enumerate(cases) if cs["kind"] == "base" and cs["ok"]]
+    rnd = random.Random(seed + 77)
+    rnd.shuffle(base)
+    take = base[: (150 if tier == "quick" else 3000)]
+    reqs, meta = [], []
+    for ci, cs in take:
+        for suffix in ("", "k"):
+            path = gen.find_type(units, cs["sid"] + suffix, cs["ty"])
+            if path is None:
+                continue
+            reqs.append({"id": len(reqs), "ty": path, "proto": "bin", "mode": "sync", "op": "trace_encode", "input": cs["bin"]})
+            meta.append({"schema": cs["sid"] + suffix, "type": cs["ty"], "how": cs["how"], "unit": "keep" if suffix else "plain"})
+    out = gen.run_worker(reqs, tag="gtrace")
+    tp = os.path.join(c.OUT, f"gentrace-{os.getpid()}.ndjson")
+    runs = 0
+    unmodelled = {}
+    with open(tp, "w") as f:
+        for i, m in enumerate(meta):
+            r = out.get(i)
+            if r is None or r.get("tool_error"):
+                raise c.ToolError("worker: " + str(r))
+            if not r.get("ok"):
+                continue     # a decode problem: the round-trip checks report it
+            for proto, t in r["traces"].items():
+                for u in t["unmodelled"]:
+                    unmodelled[u] = unmodelled.get(u, 0) + 1
+                runs += 1
+                f.write(json.dumps({"op": "reset", "run": runs, "dir": "w", "p": proto, "buf": "bytesmut", "err": t["err"], "gen": m}) + "\n")
+                for ev in t["events"]:
+                    f.write(json.dumps(ev) + "\n")
+                if not t["err"]:
+                    f.write(json.dumps({"op": "end", "size": t["size"]}) + "\n")
+    events, nruns, rejections, crashed = rt.validate_trace(tp)
+    os.remove(tp)
+    n = 0
+    for r in rejections:
+        op = r["event"].get("op", "")
+        owner = "C04" if op.startswith("l_") or op == "end" else "C02"
+        if owner == prop:
+            n += 1
+            g = r["run_head"].get("gen", {})
+            rep.violation({"check": "gen-trace-rejected", "proto": r["run_head"].get("p"), "op": op, "unit": g.get("unit")},
+                          {"generated_type": g, "rejected_at": r["line_in_run"], "event": r["event"], "run": r["run_lines"][:60]})
+    for r in crashed:
+        h = json.loads(r[0])
+        if prop == "C02":
+            rep.violation({"check": "gen-trace-encode-error", "proto": h.get("p"), "unit": h.get("gen", {}).get("unit")}, {"run_head": h})
+    return {"emitted_code_call_traces": {"runs_validated": nruns, "events_validated": events, "rejections": len(rejections),
+                                         "types_traced": len(meta), "calls_without_a_spec_action": unmodelled}}
